@@ -69,6 +69,17 @@ def run_property(ctx, mod, units, t0):
         i += len(r.obs)
     known = load_known()
     violations, undecided, internal, knownhits = [], [], [], []
+    # vacuity guard: the hypotheses of the last obligation of every unit (the one with most accumulated facts) must be satisfiable
+    vac_obs, vac_units = [], []
+    for r in results:
+        cand = [o for o in r.obs if not getattr(o, "trivial", False)]
+        if cand:
+            vac_obs.append(max(cand, key=lambda o: o.nfacts + len(o.extra_hyps)))
+            vac_units.append(r.name)
+    vac = solve.vacuity(vac_obs) if (vac_obs and not ctx.partial) or vac_obs else []
+    vac_bad = [u for u, v in zip(vac_units, vac) if v == "unsat"]
+    for u in vac_bad:
+        internal.append((u, "vacuity: the hypotheses (preconditions / invariants / lemmas) of this unit are contradictory"))
     nob = ndis = 0
     by_backend = collections.Counter()
     solver_s = 0.0
@@ -172,6 +183,8 @@ def run_property(ctx, mod, units, t0):
                bounded=bounded, known_findings=[k["what"] for k, _, _ in knownhits][:20],
                undecided=[dict(unit=n, reason=e[:300]) for n, e in undecided],
                failed=[dict(unit=v["unit"], obligation=v["obligation"], result=v["result"]) for v in violations][:50],
+               vacuity_checks=dict(units=len(vac), satisfiable=sum(1 for v in vac if v == "sat"), undetermined=sum(1 for v in vac if v == "unknown"),
+                                   contradictory=len(vac_bad)),
                units=infos, explanation=getattr(mod, "EXPLANATION", ""),
                evaluations=max(1, nob + sum(b.get("evaluations", 0) for b in bounded)),
                distinct_nontrivial=max(2, sum(1 for x in res if x["backend"] != "z3-simplify" and x["result"] == "unsat")
